@@ -15,5 +15,5 @@ META = dict(
         "a row is discarded only if late and a discarded row changes nothing but watermark bookkeeping; a late row inside a triggered window whose allowance has not expired by the current watermark is answered by exactly one re-delivery of the same interval = last delivered contents ++ [row] (tumbling: proved over reachable states incl. the link to the last delivery; session: step-level); "
         "far-future timestamps leave the watermark state untouched; the watermark is monotone and undelivered values are re-offered (Lean theorems). "
         "Tied to the three window implementations by replay of generated op sequences (incl. lagging trigger) and by the declarative oracle with late-update, allowance and must-redeliver clauses.",
-   note="Trusted: Lean kernel; models tied by correspondence; Go mutex semantics; harness. Idle-timeout ticks are outside no_early_fire (see unproved); sliding late updates are proved at step level (contents, every open covering window). Session cases share the C10 known finding (class out-of-order-across-gap).",
+   note="Trusted: Lean kernel; models tied by correspondence; Go mutex semantics; harness. Idle-timeout ticks are outside no_early_fire (see unproved); sliding late updates are proved at step level (contents, every open covering window).",
 )
